@@ -249,7 +249,7 @@ class IH5CrashEngine:
     def generate(self, prop, tag, tier):
         rng = Rng(tag)
         g = rng["crash"]
-        case = self.base.generate("C02", tag, tier)  # 'immutable' profile: lifecycle + merges
+        case = self.base.generate("C02", tag, tier, mix=False)  # 'immutable' profile: lifecycle + merges
         case["engine"] = self.name
         case["prop"] = prop
         cfg = case["cfg"]
